@@ -9,8 +9,59 @@ import random
 
 from . import common
 
-MODULES = ["CoapVerif.Props.C20"]
+MODULES = ["CoapVerif.Props.C20", "CoapVerif.Props.C20Cache"]
 EDGE_CODES = [0, 1, 2, 31, 32, 63, 64, 65, 69, 95, 96, 127, 128, 132, 136, 143, 157, 159, 160, 165, 191, 192, 224, 225, 255]
+
+
+EXCHANGE_LIFETIME_MS = 247000   # RFC 7252 section 4.8.2 (the generated lines only need times on both sides of it)
+
+
+def gen_histories(rng, thorough):
+    """`srvt` lines: histories on one long-lived datagram connection in which a message ID comes again - inside
+    EXCHANGE_LIFETIME (a duplicate: the judge is silent, the model must still agree with the code) and after it (a NEW request,
+    RFC 7252 section 4.4: its own No-Response value decides, the handler is asked), with the periodic cache sweep before the
+    expiry, after it, or never (seeded C20-V: a reply cache that leaves the end of an element's life to the sweep)."""
+    Lt = EXCHANGE_LIFETIME_MS
+    H = []
+    # (first request's value, code), (second request's value, code)
+    sits = [(("-", 69), ("2", 69)),      # answered 2.05, then the same ID asks not to hear about 2.xx: bare ACK / nothing
+            (("2", 69), ("-", 69)),      # suppressed (a confirmable one got its bare ACK), then a request that wants its answer
+            (("8", 132), ("8", 160)),    # 4.xx suppressed, then a 5.xx that is of interest
+            (("26", 69), ("26", 69)),    # both suppressed
+            (("-", 132), ("16", 165))]
+    after = [Lt + 1, Lt + 2, Lt + 999, Lt + 3999, Lt + 4000, 2 * Lt, 2 * Lt + 1, 300000, 86400000, 2 ** 31, 2 ** 32 + 1]
+    mids = [0, 1, 0x1234, 32767, 32768, 65534, 65535]
+    for rt1 in ("con", "non"):
+        for rt2 in ("con", "non"):
+            for (pv, pc), (v, c) in sits:
+                for gap in (after if thorough else [Lt + 1, rng.choice(after[1:6]), rng.choice(after[6:])]):
+                    m = rng.choice(mids)
+                    r1, r2 = "r%d:%s:%s:%d" % (m, rt1, pv, pc), "r%d:%s:%s:%d" % (m, rt2, v, c)
+                    early = rng.choice([1, 4000, 100000, Lt - 1, Lt])
+                    H.append("srvt %s;w%d;%s" % (r1, gap, r2))                                          # never swept
+                    H.append("srvt %s;w%d;s;w%d;%s" % (r1, early, gap - early, r2))                    # last sweep before the expiry
+                    H.append("srvt %s;w%d;s;w%d;%s" % (r1, Lt + 1, gap - Lt - 1, r2))                  # swept after the expiry
+                for gap in (0, 1, Lt - 1, Lt):   # a duplicate by its message ID: the cached reply (the judge does not look)
+                    m = rng.choice(mids)
+                    H.append("srvt r%d:%s:%s:%d;w%d;%sr%d:%s:%s:%d" % (m, rt1, pv, pc, gap, rng.choice(["", "s;"]), m, rt2, v, c))
+    # far along: a connection that has been up for 259 years (synctest's clock starts in 2000 and the runtime's timers end with
+    # int64 nanoseconds in 2262: the harness cannot go further), and a message ID that rests that long
+    H.append("srvt w8200000000000;r7:con:-:69;w247001;r7:con:2:69;w247001;r7:con:-:69")
+    H.append("srvt r7:con:-:69;w8200000000000;r7:con:2:69;s;r7:non:2:69")
+    # longer histories: several message IDs interleaved, the same ID three and more times
+    vals, cds = ["-", "0", "2", "8", "16", "26", "10"], [69, 65, 132, 160, 165, 95, 0]
+    waits = [0, 1, 1000, 4000, Lt - 1, Lt, Lt + 1, Lt + 1, 2 * Lt + 1, 300000, 1000000]
+    for _ in range(600 if thorough else 80):
+        ms = rng.sample(mids, rng.choice([1, 1, 2, 3]))
+        steps = []
+        for _ in range(rng.randrange(3, 8)):
+            steps.append("r%d:%s:%s:%d" % (rng.choice(ms), rng.choice(["con", "non"]), rng.choice(vals), rng.choice(cds)))
+            if rng.random() < 0.85:
+                steps.append("w%d" % rng.choice(waits))
+            if rng.random() < 0.35:
+                steps.append("s")
+        H.append("srvt " + ";".join(steps))
+    return H
 
 
 def gen_lines(ctx):
@@ -122,6 +173,7 @@ def gen_lines(ctx):
     for v, cs in (("16", "69,160"), ("2", "160,69"), ("8", "132,69,132"), ("26", "69,132,160"), ("16", "69,69,160")):
         for tr, rt in (("udp", "con"), ("udp", "non"), ("tcp", "non")):
             L.append("srvn %s %s %s %s" % (tr, rt, v, cs))
+    L.extend(gen_histories(rng, thorough))
     return L
 
 
@@ -225,14 +277,14 @@ def explore(ctx, art):
 
 
 def run(ctx):
-    art = common.standard_prepare(ctx, MODULES, hx=False, test=True, generated=["NoResponse.lean"])
+    art = common.standard_prepare(ctx, MODULES, hx=False, test=True, generated=["NoResponse.lean", "Dedup.lean"])
     if art.get("test"):
         explore(ctx, art)
     return common.finish(ctx)
 
 
 def replay(ctx, rep):
-    art = common.standard_prepare(ctx, MODULES, hx=False, test=True, generated=["NoResponse.lean"])
+    art = common.standard_prepare(ctx, MODULES, hx=False, test=True, generated=["NoResponse.lean", "Dedup.lean"])
     lines = rep.get("input") or []
     if not lines:
         print("replay file names no failing input:", rep.get("no_longer_checks"))
